@@ -26,7 +26,8 @@ EXPLANATION = (
     " (R8) every operation reaches its primitive on every normal path and both listings keep every entry; (R9) key mapping round trip by scenario evaluation (_get_s3_key vs the listing's prefix strip)."
     " (R10) the S3 listing walks every page; (R11) ages derived from LastModified use UTC-aware clocks; (R12) S3FileStream.read is a faithful pipe (no handler turns an error into a short read); (R13) every PUT body is a bytes value. R3's retry loop is decided by simulating retry_with_backoff on 'every attempt fails' for max_retries = 1 and 2 (for/while, 0- or 1-based counters, helpers analysed in place); R6 accepts any arithmetic shape of the guard / clamp whose linear form implies pos < size and last <= size - 1; function values are followed through partial / lambda / factory returns / later-added per-key methods."
     ' (R14) a retried operation is restartable: the function handed to with_s3_retry mutates nothing it captured.'
-    " (R15) an S3 operation answers with what the store said: exists() -> True exactly after a successful HEAD, read-type results derive from the response, seek dispatch by scenario. R2: the re-raise sits on the non-404 side; R3: the retry layer returns the operation's result; R6: strict `pos >= size` guard; R11 is interprocedural; R1 tolerates trailing optional parameters.")
+    " (R15) an S3 operation answers with what the store said: exists() -> True exactly after a successful HEAD, read-type results derive from the response, seek dispatch by scenario. R2: the re-raise sits on the non-404 side; R3: the retry layer returns the operation's result; R6: strict `pos >= size` guard; R11 is interprocedural; R1 tolerates trailing optional parameters."
+    ' R2 reads table-driven error classification and exception factories.')
 NOT_DECIDED = "operation-sequence equivalence of the two backends at run time; S3's own consistency"
 
 SB = "storage_backend"
@@ -1367,6 +1368,80 @@ def _positive_fact(ctx: Ctx, f: FunctionInfo, pol: str, e: ast.AST, at: int) -> 
     return None
 
 
+def _clamped_count_guard(ctx: Ctx, m: FunctionInfo, c: Node) -> bool:
+    """The EOF guard spelled through a clamped byte count: `remaining = max(size - pos, 0)`, `count = remaining` or
+    `min(len(b), remaining)`, and the request is reached only when `count != 0` (or `count > 0`).  count is non-negative and at
+    most max(size - pos, 0), so count >= 1 gives size - pos >= 1."""
+    def remaining_like(e: Optional[ast.AST], at: int, depth: int = 0) -> bool:
+        if e is None or depth > 6:
+            return False
+        for src, sat in resolve_value(ctx, m, e, at):
+            if not (isinstance(src, ast.Call) and isinstance(src.func, ast.Name) and src.func.id == "max" and len(src.args) == 2 and not src.keywords):
+                return False
+            zero = [a for a in src.args if isinstance(a, ast.Constant) and a.value == 0]
+            other = [a for a in src.args if not (isinstance(a, ast.Constant) and a.value == 0)]
+            if len(zero) != 1 or len(other) != 1:
+                return False
+            x = _exact(ctx, m, other[0], sat)
+            if x is None or {k: v for k, v in x.items() if k != ""} != {"self._size": 1, "self._pos": -1} or x.get("", 0) > 0:
+                return False
+        return True
+
+    def bounded(e: ast.AST, at: int) -> Tuple[bool, bool]:
+        """(e <= remaining on every definition, e >= 0 on every definition)"""
+        le, nonneg = True, True
+        srcs = resolve_value(ctx, m, e, at)
+        if not srcs:
+            return False, False
+        g_ = ctx.cfg(m)
+        for src, sat in srcs:
+            if src is None:
+                return False, False
+            # a definition under a constant-false condition (`want is None` with the helper's `want=None` bound in place) is dead
+            dead = False
+            for pol_, e_, _a in facts_at(ctx, m, g_.nodes[sat]):
+                if isinstance(e_, ast.Compare) and len(e_.ops) == 1 and isinstance(e_.ops[0], (ast.Is, ast.IsNot)) \
+                        and isinstance(e_.left, ast.Constant) and isinstance(e_.comparators[0], ast.Constant) and pol_ in ("true", "false"):
+                    truth = (e_.left.value is e_.comparators[0].value) == isinstance(e_.ops[0], ast.Is)
+                    if truth != (pol_ == "true"):
+                        dead = True
+            if dead:
+                continue
+            if remaining_like(src, sat):
+                continue
+            if isinstance(src, ast.Call) and isinstance(src.func, ast.Name) and src.func.id == "min" and not src.keywords and src.args:
+                if not any(remaining_like(a, sat) for a in src.args):
+                    le = False
+                for a in src.args:
+                    if remaining_like(a, sat):
+                        continue
+                    ws = resolve_value(ctx, m, a, sat)
+                    if not ws or not all(isinstance(w, ast.Call) and isinstance(w.func, ast.Name) and w.func.id == "len" for w, _a in ws):
+                        nonneg = False
+                continue
+            return False, False
+        return le, nonneg
+
+    for pol, fe, fat in facts_at(ctx, m, c):
+        if pol not in ("true", "false"):
+            continue
+        x, strict = None, False
+        if isinstance(fe, ast.Compare) and len(fe.ops) == 1 and isinstance(fe.comparators[0], ast.Constant) and fe.comparators[0].value == 0:
+            op = type(fe.ops[0])
+            if (op is ast.Eq and pol == "false") or (op is ast.NotEq and pol == "true"):
+                x = fe.left
+            elif (op is ast.Gt and pol == "true") or (op is ast.LtE and pol == "false"):
+                x, strict = fe.left, True
+        elif isinstance(fe, ast.Name) and pol == "true":
+            x = fe
+        if x is None:
+            continue
+        le, nonneg = bounded(x, fat)
+        if le and (strict or nonneg):
+            return True
+    return False
+
+
 def r6(ctx: Ctx) -> None:
     ctx.rule("C20.R6", "range reader: reads are clamped to the object, only in-range bytes are requested, a negative seek / "
              "unknown whence raise", 5)
@@ -1400,6 +1475,8 @@ def r6(ctx: Ctx) -> None:
                     x = _positive_fact(ctx, m, pol, fe, fat)
                     if x is not None and {k: v for k, v in x.items() if k != ""} == {"self._size": 1, "self._pos": -1} and x.get("", 0) <= 0:
                         ok = True
+            if not ok:
+                ok = _clamped_count_guard(ctx, m, c)
             ctx.ob("C20.R6", m, f"{name}: no request at or past EOF", c, ok, "_get_range is only reachable when pos < size")
             last = c.ast.args[1] if isinstance(c.ast, ast.Call) and len(c.ast.args) > 1 else None
             sl = ctx.slicer(m)
